@@ -3,12 +3,13 @@ Line-protocol operation `ctrl.cut` of the `e2e` harness (C05): a control-plane e
 two pieces with another connection event between them.
 
 The property's expectation is the outcome of the whole element (`Worker.controlRun` /
-`Worker.connectRun` on the unsegmented bytes). Under the pinned `select!` loop a reader future
-that is dropped while it holds part of a frame loses that part (`Select.effective`): the model
-says for which (target, cut) that CAN happen (`tearPossible`), and what the restarted readers
-then interpret. Whether it DOES happen on a given run depends on which branch the runtime polls
-first, so for tear-possible cases the model accepts the torn observation as its own (the line
-then reads AGREE + FAIL: known finding D5); any other deviation is a disagreement.
+`Worker.connectRun` on the unsegmented bytes). Whether a frame read in progress survives the
+drop of `run`'s future is read from the source (`Generated.CONTROL_READ_PERSISTS_*`); the model
+side is `Select.effective` with that structure. Where the structure lets a read be dropped
+(`persist = false`, the tree before `fix:` D5), the model says for which (target, cut) a tear CAN
+happen and what the restarted readers then interpret; whether it DOES happen on a given run is
+the runtime's choice, so there the torn observation is accepted as the model's own when the
+torn-bytes interpretation predicts it (AGREE + FAIL); any other deviation is a disagreement.
 -/
 import WtVerif.Driver.Ops6
 import WtVerif.Driver.Select
@@ -60,15 +61,17 @@ def handle7 (op : String) (a obs : List String) : Option Verdict :=
         | (_, some (.proto e)) => h3 e
         | _ => "timeout"
     let wholePeer := if target == "capsule" then s!"app:{H3Err.noError.toCode}:-" else "alive"
+    let persist := if onSession then Generated.CONTROL_READ_PERSISTS_CONNECT else Generated.CONTROL_READ_PERSISTS_SETTINGS
     let tearPossible : Bool :=
-      match loopView target cut with
-      | some (content, c) => !(Select.leftover (content.take c)).isEmpty
-      | none => false
+      !persist &&
+      (match loopView target cut with
+       | some (content, c) => !(Select.leftover (content.take c)).isEmpty
+       | none => false)
     -- what the restarted readers interpret when the first piece's partial frame is lost
     let tornChanges : Bool :=
       match loopView target cut with
       | some (content, c) =>
-        let eff := Select.effective [⟨content.take c, true⟩, ⟨content.drop c, false⟩]
+        let eff := Select.effective persist [⟨content.take c, true⟩, ⟨content.drop c, false⟩]
         if onSession then Worker.connectRun eff .open_ != Worker.connectRun content .open_
         else Worker.controlRun eff .open_ none != Worker.controlRun content .open_ none
       | none => false
@@ -78,7 +81,7 @@ def handle7 (op : String) (a obs : List String) : Option Verdict :=
       match loopView target cut with
       | none => none
       | some (content, c) =>
-        let eff := Select.effective [⟨content.take c, true⟩, ⟨content.drop c, false⟩]
+        let eff := Select.effective persist [⟨content.take c, true⟩, ⟨content.drop c, false⟩]
         if target == "capsule" then
           some (match Worker.connectRun eff .open_ with
             | some (.appClosed c r) => connErr (.appClosed c r)
